@@ -189,6 +189,11 @@ def builtin(ex, st, callee, args, dty, fr):
         if meth == "ok_or" or meth == "ok_or_else":
             return NotImplemented
         return NotImplemented
+    # ---------------------------------------------------------------- floats
+    if re.fullmatch(r"(?:core|std)::(?:f32|f64)::<impl (f32|f64)>::abs", c) or c in ("f32::abs", "f64::abs"):
+        v = args[0]
+        if isinstance(v, Sym) and z3.is_fp(v.t):
+            return Sym(z3.fpAbs(v.t), v.ty)
     # ---------------------------------------------------------------- Result / Try
     if re.fullmatch(r"<(?:std::result::|core::result::)?Result<.*> as (?:std::ops::|core::ops::)?Try>::branch", c):
         v = args[0]
@@ -283,6 +288,14 @@ def builtin(ex, st, callee, args, dty, fr):
         ty = m.group(1); x, y = args[0].t, args[1].t
         lt = (x < y) if ty.startswith("i") else z3.ULT(x, y)
         return Sym(z3.If(lt, y, x) if m.group(3) == "max" else z3.If(lt, x, y), ty)
+    # std functions that panic on a violated precondition (contract from the std docs): the panic is a candidate the caller must exclude
+    m = re.fullmatch(r"<(usize|u8|u16|u32|u64|i32|i64|isize) as Ord>::clamp", c) or re.fullmatch(r"(?:core|std)::cmp::Ord::clamp", c)
+    if m and len(args) == 3 and all(isinstance(a, Sym) for a in args):
+        x, lo, hi = args[0].t, args[1].t, args[2].t
+        sg = args[0].ty.startswith("i")
+        lt = (lambda a, b: a < b) if sg else z3.ULT
+        val = Sym(z3.If(lt(x, lo), lo, z3.If(lt(hi, x), hi, x)), args[0].ty)
+        return _forks(ex, st, [(lt(hi, lo), _PANIC), (z3.Not(lt(hi, lo)), val)], "contract: clamp requires min <= max")
     m = re.fullmatch(r"(?:std::cmp::|core::cmp::)(max|min)", c)
     if m and all(isinstance(a, Sym) for a in args):
         x, y = args[0].t, args[1].t
